@@ -5,6 +5,7 @@
 //                                                         -> R n=<k> ids=<..> end=<class> ctr=<n|->
 //   F <key> <lsb> <n> <spec>... <lastspec>               real sending thread + shutdown_with_final_message_sent_after_threads_joined -> F wire=<hex>
 //   N <key> <max> <ciphertext>                           which counter in 0..max opens it     -> N <ctr|none>
+//   C <key> <roothex>                                   SetRoot{root}, CreateRootAncestors, Shutdown sealed under key -> C wire=<hex>
 //   O <key> <ctr> <dir> <ciphertext>                     kind and length of the plaintext     -> O <kind> <len> | O none
 // spec:  m:<id>:<payloadhex|->   z:<id>:<size>:<fillbyte>   s:<byte> (a message that does not deserialize)
 use std::io::BufRead;
@@ -80,6 +81,10 @@ pub fn run(_args: &[String]) -> i32 {
                     Some(p) => println!("O {} {}", h::fr_describe_plain(t[3].parse().unwrap(), &p), p.len()),
                     None => println!("O none"),
                 }
+            }
+            "C" => {
+                let root = String::from_utf8(unhex(t[2])).unwrap();
+                println!("C wire={}", hex(&h::fr_command_frames(key_of(t[1]), root)));
             }
             _ => println!("BADREQ"),
         }
